@@ -44,9 +44,35 @@ package message
 //@   assumes  msg has the dynamic type the codec was initialised with (otherwise reflect panics; the public API does not check it)
 
 //@ func writeValue
+//@   let I = target.Addr().Interface()
+//@   let ENUM = (f.isEnum && specEnumWidth(f.ftype) != 0)
+//@   requires f != nil && len(buf) >= specElemWidth(target, f)
+//@   ensures  [width] res == specElemWidth(target, f)
+//@   ensures  [enum-at-declared-width] ENUM ==> (forall k int :: 0 <= k && k < res ==> buf[k] == byte(target.Uint() >> (8 * uint(k))))
+//@   ensures  [scalar-little-endian] !ENUM && specScalarWidth(I) != 0 ==> (forall k int :: 0 <= k && k < res ==> buf[k] == byte(specCellBits(I) >> (8 * uint(k))))
+//@   ensures  [string-copied] !ENUM && dynIs(I, "*string") ==>
+//@              (forall k int :: 0 <= k && k < res && k < len(*(I.(*string))) ==> buf[k] == (*(I.(*string)))[k])
+//@   ensures  [rest-untouched] forall k int :: res <= k && k < len(buf) ==> buf[k] == old(buf[k])
+//@   ensures  [string-tail-untouched] !ENUM && dynIs(I, "*string") ==>
+//@              (forall k int :: len(*(I.(*string))) <= k && k < len(buf) ==> buf[k] == old(buf[k]))
+//@   canary   res == 0
 //@   modifies buf[:]
-//@   trusted
-//@   assumes  writeValue writes only inside buf; its result and its own bounds checks are not decided here (see C03/C04 notes)
+
+//@ func readValue
+//@   let I = target.Addr().Interface()
+//@   let ENUM = (f.isEnum && specEnumWidth(f.ftype) != 0)
+//@   requires f != nil && len(buf) >= specElemWidth(target, f)
+//@   ensures  [width] res == specElemWidth(target, f)
+//@   ensures  [enum-at-declared-width] ENUM ==> logLen() == 1 && logCallee(0, "reflect.SetUint") && uint64(logArgInt(0, 1)) == specLE(buf, res)
+//@   ensures  [scalar-little-endian] !ENUM && specScalarWidth(I) != 0 ==> specCellBits(I) == specLE(buf, res) && logLen() == 0
+//@   ensures  [string-cut-at-nul] !ENUM && dynIs(I, "*string") ==> specCStr(*(I.(*string)), buf, int(f.arrayLength)) && logLen() == 0
+//@   ensures  [buffer-untouched] unchangedBytes(buf)
+//@   canary   res == 0
+//@   modifies ghost:reflect, ghost:log
+//@   loop 0 bind end int
+//@   loop 0 invariant 0 <= end && end <= int(f.arrayLength)
+//@   loop 0 invariant forall k int :: 0 <= k && k < end ==> buf[k] != 0
+//@   loop 0 decreases int(f.arrayLength) - end
 
 //@ func removeEmptyBytes
 //@   ensures  sameArray(res, buf) && len(res) <= len(buf)
@@ -60,11 +86,6 @@ package message
 //@   loop 0 invariant 0 <= end && end <= len(buf) && (len(buf) >= 1 ==> end >= 1) && (len(buf) == 0 ==> end == 0)
 //@   loop 0 invariant forall k int :: end <= k && k < len(buf) ==> buf[k] == 0
 //@   loop 0 decreases end
-
-//@ func readValue
-//@   modifies nothing
-//@   trusted
-//@   assumes  readValue writes only through the reflect target (never to buf or any other byte array); its result and its own bounds checks are not decided here (see C03/C04 notes)
 
 //@ func (*ReadWriter).size
 //@   requires rw != nil
